@@ -49,6 +49,15 @@ fn stdin_line(rng: &mut Rng) -> Vec<u8> {
     if rng.chance(1, 10) && !v.is_empty() {
         v[0] = b' ';
     }
+    // a carriage return inside the line is data, not a terminator
+    if rng.chance(1, 6) && !v.is_empty() {
+        let at = rng.below(v.len());
+        v[at] = b'\r';
+        if rng.chance(1, 3) {
+            v.push(b'\r');
+            v.push(b'x');
+        }
+    }
     // valid UTF-8 beyond ASCII (the services deal in bytes): at the front, in the middle, at the end
     if rng.chance(1, 5) {
         let ch = *rng.pick(&["\u{e9}", "\u{20ac}", "\u{c3}", "\u{1F600}", "\u{a0}"]);
@@ -299,7 +308,27 @@ fn run_scenario(rep: &Report, sc: &Scenario, core: Option<usize>) {
                 let base = (r.regs[DS] as usize * 16 + r.regs[DX] as usize) % M;
                 let cap = pre[base] as usize;
                 let c = post[(base + 1) % M] as usize;
-                let lo = body.len().min(cap.saturating_sub(1));
+                // a CR LF terminator may be stripped as a whole
+                let mut stripped = body.len();
+                while stripped > 0 && body[stripped - 1] == b'\r' {
+                    stripped -= 1;
+                }
+                let lo = stripped.min(cap.saturating_sub(1));
+                // which capacity convention does this call reveal? (line at least as long as the capacity, no CR at the cut)
+                if !l.is_empty() && cap >= 2 && stripped >= cap && !body[..cap.min(body.len())].contains(&b'\r') {
+                    if c == cap {
+                        rep.count("0Ah calls storing `capacity` characters of a longer line", 1);
+                    } else if c + 1 == cap {
+                        rep.count("0Ah calls storing `capacity-1` characters of a longer line", 1);
+                    }
+                } else if !l.is_empty() && cap >= 2 && stripped >= cap {
+                    // a CR inside the part that fits must not be taken for the terminator: the count follows the same convention
+                    if c + 1 == cap && body[cap - 1] == b'\r' {
+                        rep.count("0Ah calls cutting the line short at an interior CR", 1);
+                    } else if c == cap {
+                        rep.count("0Ah calls keeping an interior CR", 1);
+                    }
+                }
                 let hi = (body.len() + if l.last() == Some(&b'\n') { 1 } else { 0 }).min(cap);
                 rep.distinct_str(&format!("in0a|cap{}|len{}|{}", cap.min(3), if body.len() < cap { "short" } else if body.len() == cap { "equal" } else { "long" }, if l.is_empty() { "eof" } else { "line" }));
                 if l.is_empty() || cap == 0 {
@@ -410,8 +439,20 @@ pub fn run(rep: &Report) {
         let sc = scenario(&mut rng, None);
         run_scenario(rep, &sc, if core { Some(1000 + i) } else { None });
     });
+    // one capacity convention for the whole run: either `capacity` or `capacity-1` characters of a longer line
+    let full = rep.counter("0Ah calls storing `capacity` characters of a longer line");
+    let dos = rep.counter("0Ah calls storing `capacity-1` characters of a longer line");
+    let cut = rep.counter("0Ah calls cutting the line short at an interior CR");
+    if (full > 0 && dos > 0) || (full > 0 && cut > 0 && dos == 0) {
+        rep.fail(Failure {
+            sig: "svc:int21:ah0a:count-convention-inconsistent".into(),
+            what: "C18: INT 21h/0Ah stores `capacity` characters of some over-long lines and `capacity-1` of others (e.g. when a carriage return sits at the cut)".into(),
+            witness: format!("{{\"kind\": \"aggregate\", \"calls_storing_capacity\": {}, \"calls_storing_capacity_minus_1\": {}, \"of_those_with_interior_cr_at_the_cut\": {}}}", full, dos + cut, cut),
+            core_item: None,
+        });
+    }
     rep.floor("supported service calls judged", rep.counter("supported service calls judged"), 1000);
     rep.floor("unsupported AH values observed", rep.counter("unsupported AH values observed"), 500);
 }
 
-pub const RULE: &str = "programs place text low, at a random segment and at the top of the 1 MiB space, set SS:SP/flags, then perform a history of 1-4 console service calls, each with DS/ES from {0xFFFF,0xFFF0,0,text segment,random}, buffer offsets {0,0xFFFF,0xFFFE,0xE,0xF,0xFF,random}, capacities {0,1,2,3,5,10,40,254,255}, CX {0,1,2,3,16,80,257,300}, characters incl. control and >=0x80, and a stdin script of lines of length {0,1,2,5,254..257,700,random} (ASCII, with multi-byte UTF-8 characters at the front/middle/end, with trailing blanks), missing lines (end of input) and a last line without newline; every AH value 0..255 is run once for both INT 21h and INT 10h. Oracle: a reference of the five services over (hook-recorded registers, dumped memory, remaining stdin) predicts the stdout bytes (bytes >= 0x80 accepted raw or as UTF-8), AL, and for AH=0Ah the count bounds min(len,cap-1) <= count <= min(len+1,cap), the stored prefix of the line and the window [DS:DX+1, DS:DX+1+cap] (addresses modulo 2^20) outside which no cell of the full 1 MiB may change; every other register, flag and memory cell must be identical in the records before and after; unsupported AH must be reported and stop the program. Distinct = (service, CX/output/capacity/line-length classes) and each unsupported (interrupt, AH).";
+pub const RULE: &str = "programs place text low, at a random segment and at the top of the 1 MiB space, set SS:SP/flags, then perform a history of 1-4 console service calls, each with DS/ES from {0xFFFF,0xFFF0,0,text segment,random}, buffer offsets {0,0xFFFF,0xFFFE,0xE,0xF,0xFF,random}, capacities {0,1,2,3,5,10,40,254,255}, CX {0,1,2,3,16,80,257,300}, characters incl. control and >=0x80, and a stdin script of lines of length {0,1,2,5,254..257,700,random} (ASCII, with multi-byte UTF-8 characters at the front/middle/end, with trailing blanks, with carriage returns inside the line), missing lines (end of input) and a last line without newline; every AH value 0..255 is run once for both INT 21h and INT 10h. Oracle: a reference of the five services over (hook-recorded registers, dumped memory, remaining stdin) predicts the stdout bytes (bytes >= 0x80 accepted raw or as UTF-8), AL, and for AH=0Ah the count bounds min(len,cap-1) <= count <= min(len+1,cap), the stored prefix of the line, one capacity convention for the whole run (over-long lines store `capacity` or `capacity-1` characters, never a mixture, also when a carriage return sits at the cut) and the window [DS:DX+1, DS:DX+1+cap] (addresses modulo 2^20) outside which no cell of the full 1 MiB may change; every other register, flag and memory cell must be identical in the records before and after; unsupported AH must be reported and stop the program. Distinct = (service, CX/output/capacity/line-length classes) and each unsupported (interrupt, AH).";
